@@ -234,10 +234,13 @@ class Ctx:
         matched, unmatched = [], []
         for st in sites:
             hit = None
+            cl = clause
+            if "|" in st:               # item carries its own clause:  Clause|site
+                cl, st = st.split("|", 1)
             for f in self.findings:
                 if f["property"] != self.pid:
                     continue
-                if f.get("clause") not in (None, clause):
+                if f.get("clause") not in (None, cl):
                     continue
                 if f.get("site") not in (None, st):
                     continue
@@ -248,7 +251,7 @@ class Ctx:
                 hit = f
                 break
             if hit is None:
-                unmatched.append(st)
+                unmatched.append(st if cl == clause else cl + "|" + st)
             else:
                 matched.append(hit)
         for f in matched:
